@@ -270,6 +270,14 @@ func (m *Machine) binop(op token.Token, a, b Value, ta, tb types.Type) Value {
 		case token.NEQ:
 			return Bool{c.Not(m.ropeEq(x.R, y.R))}
 		}
+	case Struct, Array:
+		eq := m.valueEq(a, b)
+		if op == token.EQL {
+			return Bool{eq}
+		}
+		if op == token.NEQ {
+			return Bool{c.Not(eq)}
+		}
 	case ByteArr:
 		y := b.(ByteArr)
 		eq := m.ropeEq(x.R, y.R)
@@ -669,8 +677,24 @@ func (m *Machine) valueEq(a, b Value) *sym.Term {
 		return m.ptrEq(x, b.(Ptr))
 	case Iface:
 		return m.ifaceEq(x, b.(Iface))
+	case ByteArr:
+		return m.ropeEq(x.R, b.(ByteArr).R)
+	case Struct:
+		y := b.(Struct)
+		res := m.C.Bool(true)
+		for i := range x.F {
+			res = m.C.And(res, m.valueEq(x.F[i], y.F[i]))
+		}
+		return res
+	case Array:
+		y := b.(Array)
+		res := m.C.Bool(true)
+		for i := range x.E {
+			res = m.C.And(res, m.valueEq(x.E[i], y.E[i]))
+		}
+		return res
 	}
-	panic(unsupported(fmt.Sprintf("map key of %T", a)))
+	panic(unsupported(fmt.Sprintf("comparison of %T", a)))
 }
 
 func (m *Machine) mapFind(mo *MapObj, k Value) int {
